@@ -23,7 +23,8 @@ type Query {
   firstTrack: Track
   items: [Item]
   name: String
-  count: Int
+  count: Int @deprecated(reason: "use items")
+  stamps: [Time]
   hello(name: String): String
   add(a: Int, b: Int): Int
   flag(on: Boolean): String
@@ -74,6 +75,7 @@ type Track {
   name: String
   title: String
   length: Int
+  plays: Int
 }
 
 input Opts {
@@ -249,6 +251,14 @@ func (q *Query) MixedThings() []interface{} {
 	return []interface{}{*q.Items[1], &Other{ID: "o3", Note: "ptr"}, Other{ID: "o4", Note: "val"}, q.Items[0]}
 }
 
+// Stamps is a NAMED slice type of struct values that are leaves (time.Time): ggql walks it by reflection.
+type Stamps []time.Time
+
+// Stamps serves a list of a scalar whose Go values are structs.
+func (q *Query) Stamps() Stamps {
+	return Stamps{time.Date(2020, 1, 2, 3, 4, 5, 0, time.UTC), time.Date(2021, 6, 7, 8, 9, 10, 0, time.UTC)}
+}
+
 // Node returns an interface implementer.
 func (q *Query) Node() interface{} { return &Other{ID: "o2", Note: "n2"} }
 
@@ -369,7 +379,12 @@ func (q *Query) URL() string { called("Query.URL"); return "https://example.org/
 type Track struct {
 	Name string
 	Secs int
+	n    int
 }
+
+// Plays has a pointer receiver and WRITES its receiver (a counter the application keeps per value it handed out): the
+// elements of Query.Tracks are struct values, every request works on its own copy of them.
+func (t *Track) Plays() int { t.n++; return t.n }
 
 // Title has a value receiver.
 func (t Track) Title() string { return "T:" + t.Name }
@@ -522,7 +537,7 @@ func newRootLate(sdl string) (*ggql.Root, *Root, func() error, error) {
 	i1 := &Item{ID: "i1", Size: 1, Tags: []string{"a"}, Next: i2, Kind: "SMALL"}
 	q := &Query{motto: "see for yourself", Items: []*Item{i1, i2}, Name: "zoo", Count: 2, When: time.Date(2020, 1, 2, 3, 4, 5, 0, time.UTC), Ratio: 0.5}
 	q.Self = q
-	q.Tracks, q.FirstTrack = []Track{{"a", 1}, {"b", 2}}, &Track{"f", 9}
+	q.Tracks, q.FirstTrack = []Track{{Name: "a", Secs: 1}, {Name: "b", Secs: 2}}, &Track{Name: "f", Secs: 9}
 	r := &Root{Query: q, Mutation: &Mutation{N: 10}}
 	root := ggql.NewRoot(r)
 	q.root = root
@@ -596,6 +611,8 @@ var Requests = []struct {
 	{`query($o: Opts) { search(opts: $o) }`, map[string]interface{}{"o": map[string]interface{}{"tags": []interface{}{"v"}}}},
 	{`{ searchIn(opts: {text: "q", tags: ["x"]}) }`, nil},
 	{`{ tracks { name title } }`, nil},
+	{`{ tracks { name plays } }`, nil},
+	{`{ stamps }`, nil},
 	{`{ crowd { id size label(prefix: "c", upper: false) } }`, nil},
 	{`{ firstTrack { name title length } }`, nil},
 	{`{ tracks { title length } }`, nil},
